@@ -26,7 +26,9 @@ Svc ==
      PMX |-> << [op |-> "AddPortMirror", name |-> "pmx", from |-> "outside-port", to |-> P("n1", "c1", "p2")] >>,
      PMI |-> << [op |-> "AddPortMirror", name |-> "pmi", from |-> "inport", to |-> P("n2", "c1", "p2")] >>,
      V6  |-> << [op |-> "AddService", name |-> "v6", nstype |-> "FABNetv6Ext", ifs |-> <<P("n2", "c2", "p1")>>, site |-> "", rp |-> <<>>] >>,
-     V4  |-> << [op |-> "AddService", name |-> "v4", nstype |-> "FABNetv4Ext", ifs |-> <<P("n2", "c1", "p1")>>, site |-> "", rp |-> <<>>] >>]
+     \* (its service-side port carries labels WITHOUT a local name)
+     V4  |-> << [op |-> "AddService", name |-> "v4", nstype |-> "FABNetv4Ext", ifs |-> <<P("n2", "c1", "p1")>>, site |-> "", rp |-> <<>>],
+                [op |-> "SetProp", p |-> "svc:v4/n2-c1-p1", kind |-> "rp", pname |-> "Labels", val |-> [vlan |-> "s:100"]] >>]
 RECURSIVE Flat(_)
 Flat(ss) == IF ss = <<>> THEN <<>> ELSE Head(ss) \o Flat(Tail(ss))
 Perms(S) == {f \in [1..Cardinality(S) -> S] : \A x \in S : \E i \in DOMAIN f : f[i] = x}
